@@ -328,6 +328,11 @@ func (f *FieldCopyToGenerator) genListOrMap() *j.Statement {
 					)
 				}
 
+				if f.IsMap {
+					// Keys which are not present in the source anymore must not survive
+					g.Id("c.Elems").Op("=").Add(mk)
+				}
+
 				// A by-value element of a message without fields is never read
 				elem := "a"
 				if (f.Kind == ObjectListKind || f.Kind == ObjectMapKind) && f.getValueField().Message.IsEmpty && !f.IsNullable {
@@ -349,7 +354,10 @@ func (f *FieldCopyToGenerator) genListOrMap() *j.Statement {
 				g.If(j.Len(j.Id(fieldName))).Op(">").Lit(0).Block(
 					j.Id("c.Null").Op("=").False(),
 				)
-			})
+			}).Else().Block(
+				// The source is nil: elements of an earlier state must not survive
+				j.Id("c.Elems").Op("=").Add(mk),
+			)
 
 			g.Id("c.Unknown").Op("=").False()
 			g.Id("tf.Attrs").Index(j.Lit(f.NameSnake)).Op("=").Id("c")
